@@ -35,7 +35,7 @@ func init() {
 		ID:              "C12",
 		Level:           "exploration",
 		Race:            true,
-		Cases:           func(tier string) int { return tierN(tier, 120, 2400) },
+		Cases:           func(tier string) int { return tierN(tier, 600, 12000) },
 		Run:             runC12,
 		CaseTimeout:     2 * time.Minute,
 		HangIsViolation: true,
